@@ -10,7 +10,15 @@ def showIds (l : List Nat) : String := "[" ++ ",".intercalate (l.map fun e => s!
     failure) | `c`.  Output: one trace per action, then the end-of-case summary. -/
 def handleRing (toks : List String) : String :=
   match splitOps toks with
-  | [ms, np, ad, cr, rd] :: acts =>
+  | [ms, np, ad0, cr, rd0] :: acts =>
+    -- optional suffixes: `<adds>m` (producers use the rvalue `Add` overload: same accesses), `<rounds>q|k|n|d` (after the
+    -- drain the harness reads max_size / empty / production_count / consumption_count / Peek and takes the rest out with
+    -- Consume(n, cb) / Clear() / Consume(n) / by destroying the buffer: all read off the final model state)
+    let ad := if ad0.endsWith "m" then (ad0.dropEnd 1).toString else ad0
+    let endMode : Option Char := match rd0.toList.getLast? with
+      | some c => if "qknd".toList.contains c then some c else none
+      | none => none
+    let rd := if endMode.isSome then (rd0.dropEnd 1).toString else rd0
     match ms.toNat?, np.toNat?, ad.toNat?, cr.toNat?, rd.toNat? with
     | some ms, some np, some ad, some cr, some rd =>
       if ms = 0 ∨ np = 0 ∨ np > 8 then "bad-op" else
@@ -38,9 +46,13 @@ def handleRing (toks : List String) : String :=
       if bad then "bad-op" else
       let (sf, dtr) := drain 3000 (s, [])
       let allDone := (List.range (sf.nprod + 1)).all (threadFinished sf)
-      let rest := (sf.r.log.drop sf.r.tail)
+      let rest0 := (sf.r.log.drop sf.r.tail)
+      let q := match endMode with
+        | none => ""
+        | some _ => s!" q=max:{ms},empty:{bool01 rest0.isEmpty},prod:{sf.r.head},cons:{sf.r.tail},peek:{showIds rest0},n:{rest0.length},pe:{bool01 rest0.isEmpty},all:1,stop:{min 2 rest0.length}/{bool01 (rest0.length < 2)},aup:1"
+      let rest := if endMode = some 'd' then rest0.mergeSort (· ≤ ·) else rest0
       let res := "[" ++ ",".intercalate (sf.rets.map fun (e, b) => s!"e{e}:{bool01 b}") ++ "]"
-      let summary := s!"done={bool01 allDone} res={res} out={showIds sf.r.out} rest={showIds rest} live=0"
+      let summary := s!"done={bool01 allDone} res={res} out={showIds sf.r.out} rest={showIds rest}{q} live=0"
       " ; ".intercalate (outs.reverse ++ dtr.reverse ++ [summary])
     | _, _, _, _, _ => "bad-op"
   | _ => "bad-op"
